@@ -413,12 +413,28 @@ int FUNC(verify)(jwt_common_t *__cmd, const char *token)
 #endif
 
 #ifdef JWT_BUILDER
+static int __set_time_claim(jwt_common_t *__cmd, jwt_t *jwt, const char *name,
+			    time_t val)
+{
+	jwt_value_t jval;
+
+	jwt_set_SET_INT(&jval, name, (long)val);
+	jval.replace = 1;
+	if (jwt_claim_set(jwt, &jval)) {
+		// LCOV_EXCL_START
+		jwt_write_error(__cmd, "Error setting %s claim", name);
+		return 1;
+		// LCOV_EXCL_STOP
+	}
+
+	return 0;
+}
+
 char *FUNC(generate)(jwt_common_t *__cmd)
 {
 	JWT_CONFIG_DECLARE(config);
 	jwt_auto_t *jwt = NULL;
 	char *out = NULL;
-	jwt_value_t jval;
 	time_t tm = time(NULL);
 
 	if (__cmd == NULL)
@@ -439,21 +455,18 @@ char *FUNC(generate)(jwt_common_t *__cmd)
 
 	/* Our internal work first */
 	if (__cmd->c.claims & JWT_CLAIM_IAT) {
-		jwt_set_SET_INT(&jval, "iat", (long)tm);
-		jval.replace = 1;
-		jwt_claim_set(jwt, &jval);
+		if (__set_time_claim(__cmd, jwt, "iat", tm))
+			return NULL; // LCOV_EXCL_LINE
 	}
 
 	if (__cmd->c.claims & JWT_CLAIM_NBF) {
-		jwt_set_SET_INT(&jval, "nbf", (long)(tm + __cmd->c.nbf));
-		jval.replace = 1;
-		jwt_claim_set(jwt, &jval);
+		if (__set_time_claim(__cmd, jwt, "nbf", tm + __cmd->c.nbf))
+			return NULL; // LCOV_EXCL_LINE
 	}
 
 	if (__cmd->c.claims & JWT_CLAIM_EXP) {
-		jwt_set_SET_INT(&jval, "exp", (long)(tm + __cmd->c.exp));
-		jval.replace = 1;
-		jwt_claim_set(jwt, &jval);
+		if (__set_time_claim(__cmd, jwt, "exp", tm + __cmd->c.exp))
+			return NULL; // LCOV_EXCL_LINE
 	}
 
 	/* Alg and key checks */
